@@ -778,6 +778,7 @@ func (tree *MutableTree) SaveVersion() ([]byte, int64, error) {
 		if err := tree.saveFastNodeVersion(version); err != nil {
 			return nil, version, err
 		}
+		verifYield("SaveVersion.afterFastNodes")
 	}
 	// save new nodes
 	if tree.root == nil {
@@ -806,11 +807,14 @@ func (tree *MutableTree) SaveVersion() ([]byte, int64, error) {
 		}
 	}
 
+	verifYield("SaveVersion.beforeCommit")
 	if err := tree.ndb.Commit(); err != nil {
 		return nil, version, err
 	}
+	verifYield("SaveVersion.betweenCommitAndPublish")
 
 	tree.ndb.resetLatestVersion(version)
+	verifYield("SaveVersion.afterPublish")
 	tree.version = version
 
 	// set new working tree
@@ -873,6 +877,7 @@ func (tree *MutableTree) saveFastNodeAdditions() error {
 	sort.Strings(keysToSort)
 
 	for _, key := range keysToSort {
+		verifYield("saveFastNodeAdditions.loop")
 		val, _ := tree.unsavedFastNodeAdditions.Load(key)
 		if err := tree.ndb.SaveFastNode(val.(*fastnode.Node)); err != nil {
 			return err
@@ -897,6 +902,7 @@ func (tree *MutableTree) saveFastNodeRemovals() error {
 	sort.Strings(keysToSort)
 
 	for _, key := range keysToSort {
+		verifYield("saveFastNodeRemovals.loop")
 		if err := tree.ndb.DeleteFastNode(ibytes.UnsafeStrToBytes(key)); err != nil {
 			return err
 		}
@@ -1106,6 +1112,7 @@ func (tree *MutableTree) saveNewNodes(version int64) error {
 	}
 
 	for _, node := range newNodes {
+		verifYield("saveNewNodes.loop")
 		if err := tree.ndb.SaveNode(node); err != nil {
 			return err
 		}
